@@ -64,7 +64,7 @@ func VerifC14Merge(kind, m, n, keyMode int) {
 		vrt.Assume(!zzC14KeyLess(kind, keyMode, c.b[i+1], c.b[i]))
 	}
 	rt := [...]string{"list", "vector", "string"}[kind]
-	vrt.Carve("C14-nil-designator-rejected", kind == zzC14List && (m == 0 || n == 0))
+	vrt.Carve("C14-valid-args-rejected", kind == zzC14List && (m == 0 || n == 0))
 	form := slip.List{slip.Symbol("merge"), zzC14Quote(slip.Symbol(rt)),
 		zzC14Quote(zzC14Seq(kind, c.a)), zzC14Quote(zzC14Seq(kind, c.b)), zzC14Quote(zzC14NewFn(3))}
 	form = append(form, zzC14KeyTestArgs(keyMode, 0)...)
